@@ -554,6 +554,7 @@ func (ex *Exec) newFrame(fn *ssa.Function, depth int) *Frame {
 		fr.key = fn.String()
 	}
 	fr.spec = ex.specs.Funcs[fr.key]
+	fr.entryAlloc = ex.nalloc
 	return fr
 }
 
